@@ -33,7 +33,7 @@ var spPairs = []spPair{
 	{A: "tensor.(StdEng).softMaxLastDimF32", B: "tensor.(StdEng).softMaxLastDimF64", Map: [][2]string{{"math32", "math"}, {"32", "64"}}, Props: []string{"C17"}},
 	{A: "tensor.(StdEng).softMaxInnerDimF32", B: "tensor.(StdEng).softMaxInnerDimF64", Map: [][2]string{{"float32(0)", "0"}, {"math32", "math"}, {"32", "64"}}, Props: []string{"C17"}},
 	{A: "tensor.(StdEng).softMaxBInnerDimF32", B: "tensor.(StdEng).softMaxBInnerDimF64", Map: [][2]string{{"float32(0)", "0"}, {"math32", "math"}, {"32", "64"}}, Props: []string{"C17"}},
-	{A: "tensor.handleFuncOptsF32", B: "tensor.handleFuncOptsF64", Map: [][2]string{{"32", "64"}}, Props: []string{"C20"}},
+	{A: "tensor.handleFuncOptsF32", B: "tensor.handleFuncOptsF64", Map: [][2]string{{"32", "64"}}, Props: []string{"C20", "C07"}},
 	{A: "tensor.prepDataVSF32", B: "tensor.prepDataVSF64", Map: [][2]string{{"32", "64"}}, Props: []string{"C20"}},
 	{A: "tensor.(Float32Engine).checkThree", B: "tensor.(Float64Engine).checkThree", Map: [][2]string{{"32", "64"}}, Props: []string{"C20"}},
 	{A: "tensor.(Float32Engine).checkTwo", B: "tensor.(Float64Engine).checkTwo", Map: [][2]string{{"32", "64"}}, Props: []string{"C20"}},
